@@ -567,7 +567,25 @@ func GenTreeOpt(seed uint64, maxPkgs, maxFuncs int, allowDep bool) Tree {
 			fs[k].Name = fmt.Sprintf("Dep%s%d", fs[k].Name, k)
 		}
 		src := RenderFile("util", fs, true, false) + "\nfunc Twice(n int) int {\n\treturn n * 2\n}\n\nfunc Scale(n, k int) int {\n\tt := 0\n\tfor i := 0; i < k; i++ {\n\t\tt += n\n\t}\n\treturn t\n}\n"
+		// a deep import chain util -> c01 -> c02 -> ... -> c12 plus a shortcut
+		// util -> c11 (a diamond: c11 is reachable at depth 2 and at depth 12)
+		const chain = 12
+		imp := "import (\n\t\"example.test/dep/c01\"\n\t\"example.test/dep/c11\"\n)\n"
+		i0 := strings.Index(src, "\n\n")
+		src = src[:i0] + "\n\n" + imp + src[i0:] + "\nfunc ChainSum(n int) int {\n\treturn c01.Step(n) + c11.Step(n)\n}\n"
 		t.DepFiles = append(t.DepFiles, File{Rel: "util/util.go", Pkg: "util", Src: src, Funcs: fs})
+		for k := 1; k <= chain; k++ {
+			name := fmt.Sprintf("c%02d", k)
+			body := "package " + name + "\n\n"
+			if k < chain {
+				next := fmt.Sprintf("c%02d", k+1)
+				body += "import \"example.test/dep/" + next + "\"\n\nfunc Step(n int) int {\n\tif n > " + fmt.Sprint(k) + " {\n\t\treturn " + next + ".Step(n - 1)\n\t}\n\treturn n\n}\n"
+			} else {
+				body += "func Step(n int) int {\n\tt := 0\n\tfor i := 0; i < n; i++ {\n\t\tt += i\n\t}\n\treturn t\n}\n"
+			}
+			body += "\nfunc Leaf" + fmt.Sprint(k) + "(xs []int) int {\n\tt := 0\n\tfor _, x := range xs {\n\t\tt += x * " + fmt.Sprint(k) + "\n\t}\n\treturn t\n}\n"
+			t.DepFiles = append(t.DepFiles, File{Rel: name + "/" + name + ".go", Pkg: name, Src: body})
+		}
 	}
 	nPkgs := 1 + r.Intn(maxPkgs)
 	pkgNames := []string{"alpha", "bravo", "core", "delta"}
